@@ -6,22 +6,27 @@ from .. import tlc
 from ..core import watchdog, Timeout
 from ..oracle import Oracle, OracleMismatch
 
-UNIVERSE = [(0, 1), (0, 2), (1, 2), (2, 3), (3, 4), (1, 4), (0, 5), (5, 6), (2, 6), (4, 7), (6, 7), (3, 7)]
+# "any element universe": both orientations of a pair are different elements, and tuples need not be mutually orderable
+UNIVERSE = [(0, 1), (1, 0), (1, 2), (2, 3), (3, 2), (1, 4), (0, 5), (5, "x"), ("x", 6), (4, 7), (6, None), (7, 3)]
 UNIVERSE += [(100 + i, 101 + i) for i in range(400)]       # large sets: positions beyond CPython's small-int cache (> 256)
 ENC = {e: i + 1 for i, e in enumerate(UNIVERSE)}
 
 
 def _project(ds, usize):
     enc = ENC
-    it = [enc.get(e, 0) for e in list(ds)]
-    # two iterations of the same object that overlap in time (as in `for a in ds: for b in ds:`): each is a full iteration
-    outer, inner_full = [], True
-    for n_, a in enumerate(ds):
-        outer.append(enc.get(a, 0))
-        if n_ < 3 or len(it) <= 40:
-            inner_full = inner_full and [enc.get(b, 0) for b in ds] == it
-    ev = {"iter": it, "len": len(ds), "contains": [i + 1 for i in range(usize) if UNIVERSE[i] in ds],
-          "iter_outer": outer, "inner_full": bool(inner_full)}
+    ev = {"iter": [], "len": -1, "contains": [], "iter_outer": [], "inner_full": True, "obs_raised": ""}
+    try:
+        it = [enc.get(e, 0) for e in list(ds)]
+        # two iterations of the same object that overlap in time (as in `for a in ds: for b in ds:`): each is a full iteration
+        outer, inner_full = [], True
+        for n_, a in enumerate(ds):
+            outer.append(enc.get(a, 0))
+            if n_ < 3 or len(it) <= 40:
+                inner_full = inner_full and [enc.get(b, 0) for b in ds] == it
+        ev.update({"iter": it, "len": len(ds), "contains": [i + 1 for i in range(usize) if UNIVERSE[i] in ds],
+                   "iter_outer": outer, "inner_full": bool(inner_full)})
+    except Exception as ex:       # len / iteration / membership never raise on a set
+        ev["obs_raised"] = type(ex).__name__
     pe, ph = getattr(ds, "_edges", None), getattr(ds, "_edge_hashmap", None)
     if isinstance(pe, list) and isinstance(ph, dict):
         ev["priv"] = True
